@@ -9,7 +9,8 @@ MapIterator / MapStream skeleton no longer stops the C13 build at a misleading l
 `Juniper.Gen.SkeletonPar.pskel…` is the sequence of statement kinds of a body as it is in the source now
 (identifiers and expressions normalised away, see `tools/gofacts/sites_skeleton_par.go`), the right-hand
 sides are the skeletons the model `Juniper.Model.ParDo` / `Juniper.Model.ParWrap` was written against.
-`doCode_sound`, `dcCode_sound`, `mapWrapper_sound`, `mapContextWrapper_sound` are stated `under` these ties.
+The soundness tactics `pardo_sound` (`Proofs/ParDoBasic.lean`) and `wrapper_sound` (`Proofs/ParWrap.lean`), which
+every property theorem of `Props/C13*.lean` runs, prove `Code.Sound` / `Wrapper.Sound` `under` these ties.
 -/
 namespace Juniper.Proofs.SkeletonPar
 open Juniper.Gen.SkeletonPar
